@@ -32,7 +32,7 @@ func init() {
 				Name: "structured",
 				N: func(t string) uint64 {
 					if t == "thorough" {
-						return 12_000_000
+						return 40_000_000
 					}
 					return 250_000
 				},
@@ -44,7 +44,7 @@ func init() {
 				Name: "corpus-mutation",
 				N: func(t string) uint64 {
 					if t == "thorough" {
-						return 12_000_000
+						return 40_000_000
 					}
 					return 300_000
 				},
